@@ -18,6 +18,8 @@ type C06Case struct {
 	Case     *CheckCase `json:"case"`
 	NameRaw  []byte     `json:"name_raw"` // TB name (arbitrary bytes)
 	ViaFlag  bool       `json:"via_flag,omitempty"`
+	MovedDir string     `json:"moved_dir,omitempty"` // via flag: the file was copied into a directory of this name first (a CI artifact directory, say)
+	MovedAbs bool       `json:"moved_abs,omitempty"` // ... and is named by its absolute path
 	Renamed  string     `json:"renamed,omitempty"`  // via flag: the file was copied to this name first (attached to a bug report, say); relative path
 	LongLine int        `json:"longline,omitempty"` // longest output line requested (bytes)
 	Stale    int        `json:"stale,omitempty"`    // fail files of earlier failures (all-zero words of various lengths) already present
@@ -61,6 +63,11 @@ func (c06) Gen(dt *drv.T, c *Ctx) any {
 	cs.ViaFlag = chance(dt, "viaflag", 30)
 	if cs.ViaFlag && drv.Bool().Draw(dt, "renamed") {
 		cs.Renamed = pick(dt, "newname", "repro.fail", "issue-1234 repro.fail", "TestOther-20240101000000-1.fail", "failing-case.txt", "x")
+	}
+	if cs.ViaFlag && chance(dt, "moved", 50) {
+		// directory names that mean something to a shell or to a glob pattern mean nothing to -rapid.failfile
+		cs.MovedDir = pick(dt, "moveddir", "artifacts [linux-amd64]", "run[1", "logs]", "out*", "what?", "with space", "{a,b}", "b\\ackslash", "-dash", "..dots", "ünï-目录", "a[b]c*d?e", "[!x]", "~tilde", "$HOME", "100%")
+		cs.MovedAbs = drv.Bool().Draw(dt, "movedabs")
 	}
 	if chance(dt, "stale", 30) {
 		cs.Stale = drv.IntRange(1, 3).Draw(dt, "nstale")
@@ -208,10 +215,29 @@ func (c06) Run(c *Ctx, csAny any) Outcome {
 		_ = os.Chdir(other)
 		cfg2.FailFile = abs
 		out.Classes = append(out.Classes, "via-flag")
-		if cs.Renamed != "" {
-			if b, err := os.ReadFile(abs); err == nil && os.WriteFile(cs.Renamed, b, 0o664) == nil {
-				cfg2.FailFile = cs.Renamed // relative to the working directory
-				out.Classes = append(out.Classes, "via-flag-renamed-copy")
+		if cs.Renamed != "" || cs.MovedDir != "" {
+			target := cs.Renamed
+			if target == "" {
+				target = filepath.Base(abs)
+			}
+			if cs.MovedDir != "" {
+				if os.MkdirAll(cs.MovedDir, 0o775) == nil {
+					target = filepath.Join(cs.MovedDir, target)
+				}
+			}
+			if b, err := os.ReadFile(abs); err == nil && os.WriteFile(target, b, 0o664) == nil {
+				cfg2.FailFile = target // relative to the working directory
+				if cs.MovedAbs {
+					if a, err := filepath.Abs(target); err == nil {
+						cfg2.FailFile = a
+					}
+				}
+				if cs.Renamed != "" {
+					out.Classes = append(out.Classes, "via-flag-renamed-copy")
+				}
+				if cs.MovedDir != "" && strings.HasPrefix(target, cs.MovedDir) {
+					out.Classes = append(out.Classes, "via-flag-copy-in-a-directory-with-special-characters")
+				}
 			}
 		}
 	} else {
